@@ -41,7 +41,10 @@ def _job(args):
         from pvc import scen, core
         mod = importlib.import_module(modname)
         fn, cfg = mod.configs(tier)[idx]
-        kw = getattr(fn, 'run_kw', {})
+        kw = dict(getattr(fn, 'run_kw', {}))
+        if tier == 'thorough':
+            kw.setdefault('budget_ms', 20000)
+            kw.setdefault('time_cap_s', 1500)
         run, S, pool = scen.run_symbolic(fn, cfg, mod.MODULES, seed=seed, **kw)
         out = dict(name=run.name, cfg=cfg, contract=fn.__name__, error=run.error, stats=run.stats,
                    paths=run.paths, exits=run.exits, notes=run.notes, div=run.div, results=[],
@@ -186,7 +189,7 @@ def finish(prop, mod, tier, seed, outs, extra, t0):
         for bad in ([] if callee_broken else o['cross']['bad']):
             full = f"{o['name']}:{bad['name']}"
             if any(p == full or p.startswith(full + '@p') for p in proved_names):
-                faults.append(f"engine cross-check: {full} proved symbolically but fails natively: {bad}")
+                faults.append(f"engine cross-check: {full} proved symbolically but fails natively: " + str({k2: v2 for k2, v2 in bad.items() if k2 != 'point'})[:300])
         for dv in o.get('div', []):
             obligations += 1
             nm = f"{o['name']}:div.nonzero[{dv['den'][:60]}]"
